@@ -21,10 +21,12 @@ from ref import ampgen, goofit_read
 
 V1 = "K*(892)bar0{K-,pi+}"
 V2 = "rho(770)0{pi+,pi-}"
+# A and B both leave K(1)(1270)bar- and rho(770)0 open in a top line and define them DIFFERENTLY by partial lines
 FILES = {
-    "A": f"EventType D0 K- pi+ pi+ pi-\nD0[P]{{{V1},{V2}}} 0 0.5 0.1 0 2.0 0.2\nD0{{K(1)(1270)bar-{{{V1},pi-}},pi+}} 0 0.3 0.1 0 1.0 0.2\nD0{{{V1},PiPi00{{pi+,pi-}}}} 2 1 0 2 0 0\n",
+    "A": (f"EventType D0 K- pi+ pi+ pi-\nD0[P]{{{V1},{V2}}} 0 0.5 0.1 0 2.0 0.2\nD0{{K(1)(1270)bar-,pi+}} 0 0.3 0.1 0 1.0 0.2\nD0{{{V1},PiPi00{{pi+,pi-}}}} 2 1 0 2 0 0\n"
+          f"K(1)(1270)bar-{{{V1},pi-}} 0 0.6 0.1 0 0.4 0.1\nK(1)(1270)bar-[D]{{rho(770)0,K-}} 2 1 0 2 0 0\nrho(770)0{{pi+,pi-}} 2 1 0 2 0 0\n"),
     "B": (f"EventType D0 K- pi+ pi+ pi-\nFastCoherentSum::UseCartesian 0\nD0{{{V1},PiPi10[kMatrix.pole.1]{{pi+,pi-}}}} 0 0.7 0.1 0 1.0 0.2\n"
-          f"D0{{K(1460)bar-{{{V1},pi-}},pi+}} 2 1 0 2 0 0\nf_scatt0 2 0.2 0\nf_scatt1 2 0.3 0\nIS_p1_pipi 2 0.2 0\nIS_p1_KK 2 0.1 0\nsA 2 1 0\nsA_0 2 -0.15 0\n"
+          f"D0{{K(1460)bar-{{{V1},pi-}},pi+}} 2 1 0 2 0 0\nD0{{K(1)(1270)bar-,pi+}} 0 0.2 0.1 0 0.1 0.1\nK(1)(1270)bar-{{omega(782)0{{pi+,pi-}},K-}} 0 0.7 0.1 0 -0.4 0.1\nf_scatt0 2 0.2 0\nf_scatt1 2 0.3 0\nIS_p1_pipi 2 0.2 0\nIS_p1_KK 2 0.1 0\nsA 2 1 0\nsA_0 2 -0.15 0\n"
           "s0_prod 2 -1 0\ns0_scatt 2 -3 0\nD0_radius 0 0.0037 0.001\n"),
     "C": f"EventType D0 K- pi+ pi+ pi-\nFastCoherentSum::UseCartesian 1\nD0{{omega(782)0{{pi+,pi-}},{V1}}} 0 0.5 0.1 0 2.0 0.2\nD0[D]{{{V2},{V1}}} 0 0.25 0.1 0 -1.0 0.2\n",
     "D": ("EventType D0 K- pi+ pi+ pi-\n"
@@ -34,7 +36,14 @@ FILES = {
           + f"D0{{K(2)*(1430)bar-[GSpline.EFF]{{{V1},pi-}},pi+}} 0 0.3 0.1 0 0.5 0.2\n"
           + "".join(f"{r}::Spline::Gamma::{i} 2 0.{i+1} 0\n" for r in ("a(1)(1260)+", "K(1)(1270)bar-", "K(2)*(1430)bar-") for i in (1, 0))),
 }
-OPS = [["read", c, f] for c in ("AmplitudeChain", "GooFitChain", "GooFitPyChain") for f in FILES] + [["convert", l, f] for l in ("cpp", "py") for f in FILES]
+# used by the hash-seed part only (exactly three spin configurations / three spline arrays, so that all 3! iteration
+# orders can be enumerated)
+SEED_FILES = {
+    "S": f"EventType D0 K- pi+ pi+ pi-\nD0[P]{{{V1},{V2}}} 0 0.5 0.1 0 2.0 0.2\nD0{{K(1)(1270)bar-{{{V1},pi-}},pi+}} 0 0.3 0.1 0 1.0 0.2\nD0{{{V1},PiPi00{{pi+,pi-}}}} 2 1 0 2 0 0\n",
+}
+OPS = ([["read", c, f] for c in ("AmplitudeChain", "GooFitChain", "GooFitPyChain") for f in FILES]
+       + [["readtext", c, f] for c in ("AmplitudeChain", "GooFitPyChain") for f in FILES]   # the same reader given the text instead of the file name
+       + [["convert", l, f] for l in ("cpp", "py") for f in FILES])
 _DIR = None
 
 
@@ -45,7 +54,7 @@ def file_dir():
         if not _DIR or not os.path.isdir(_DIR):
             _DIR = tempfile.mkdtemp(prefix="c20_")
             os.environ["VERIF_C20_DIR"] = _DIR
-        for k, t in FILES.items():
+        for k, t in {**FILES, **SEED_FILES}.items():
             with open(os.path.join(_DIR, k + ".opt"), "w") as f:
                 f.write(t)
     return _DIR
@@ -81,9 +90,9 @@ def do_call(op):
     from decaylanguage.modeling.goofit import GooFitChain, GooFitPyChain
     from decaylanguage.modeling.ampgen2goofit import ampgen2goofit, ampgen2goofitpy
 
-    if kind == "read":
+    if kind in ("read", "readtext"):
         cls = {"AmplitudeChain": AmplitudeChain, "GooFitChain": GooFitChain, "GooFitPyChain": GooFitPyChain}[who]
-        r = cls.read_ampgen(path)
+        r = cls.read_ampgen(path) if kind == "read" else cls.read_ampgen(text=FILES[f])
         if who == "AmplitudeChain":
             lines, pars, consts, states = r
         else:
@@ -183,7 +192,7 @@ def set_order_observed(text, lang):
 
 def check_seeds(ctx):
     max_seeds = 64 if ctx.thorough else 16
-    targets = [(["convert", "cpp", "A"], 0), (["convert", "py", "D"], 1)] + ([(["convert", "py", "A"], 0), (["convert", "cpp", "D"], 1)] if ctx.thorough else [])
+    targets = [(["convert", "cpp", "S"], 0), (["convert", "py", "D"], 1)] + ([(["convert", "py", "S"], 0), (["convert", "cpp", "D"], 1)] if ctx.thorough else [])
     for op, which in targets:
         seen_orders = set()
         canon = {}
